@@ -51,7 +51,7 @@ func nestedJSONDoc(r *hx.Rand, t reflect.Type) string {
 					v = "false"
 				}
 			case reflect.String:
-				v = hx.Pick(r, []string{`"x"`, `"hello"`})
+				v = hx.Pick(r, []string{`"x"`, `"hello"`, `"C:\\"`, `"a\\\"b"`, `"{{#each}}[[[[[[[[[[[[[[[[[[[[[[[[[[[[[[[[[[[[[[[["`, `"}{"`})
 				if zero {
 					v = `""`
 				}
@@ -64,6 +64,12 @@ func nestedJSONDoc(r *hx.Rand, t reflect.Type) string {
 			name = strings.ToLower(name)
 		}
 		parts = append(parts, strconv.Quote(name)+":"+v)
+	}
+	if r.Chance(1, 4) {
+		// members the struct does not have (encoding/json ignores them): a string that ends in a backslash in front,
+		// a string full of brackets behind - one flat, valid value
+		parts = append([]string{`"zzPath":"C:\\"`}, parts...)
+		parts = append(parts, `"zzTpl":"`+strings.Repeat("[{", 20)+`"`)
 	}
 	doc := "{" + strings.Join(parts, ",") + "}"
 	if r.Chance(1, 8) {
